@@ -149,6 +149,8 @@ class Evaluator:
         self.depth = 0
         self.run_globals = {}
         self.dict_universe = None
+        self.store_guards = []
+        self.guarded_ifs = False   # opt-in: ifs whose arms only store into arrays become ite-stores
 
     # ------------------------------------------------------------------------------------------
     # driver
@@ -212,6 +214,14 @@ class Evaluator:
             return True
         if z3.is_false(c):
             return False
+        for pc in self.path.conds:
+            if is_z3(pc):
+                if pc.eq(c):
+                    return True
+                if z3.is_not(pc) and pc.arg(0).eq(c):
+                    return False
+                if z3.is_not(c) and c.arg(0).eq(pc):
+                    return False
         d = self._oracle()
         self.path.conds.append(c if d else z3.Not(c))
         return d
@@ -440,6 +450,36 @@ class Evaluator:
         raise Unsupported("cannot unpack %r" % (v,))
 
     def st_If(self, st, env):
+        if _only_dropped(st.body) and _only_dropped(st.orelse):
+            # both arms consist of dropped statements (logging): no fork, the test is not
+            # evaluated (tests of such ifs in the functions under contract are effect-free reads)
+            return
+        if self.guarded_ifs and not isinstance(env, LoopEnv) and _only_guardable(st.body) and \
+                (not st.orelse or _only_guardable(st.orelse)):
+            c = self.eval_cond(st.test, env)
+            if isinstance(c, bool) or not is_z3(c):
+                if self.decide(c, st.lineno):
+                    self.exec_block(st.body, env)
+                else:
+                    self.exec_block(st.orelse, env)
+                return
+            cs = z3.simplify(B(c))
+            if z3.is_true(cs):
+                return self.exec_block(st.body, env)
+            if z3.is_false(cs):
+                return self.exec_block(st.orelse, env)
+            # guarded execution: array stores in the arms become  ite(guard, new, old)
+            for guard, arm in ((cs, st.body), (z3.Not(cs), st.orelse)):
+                if not arm:
+                    continue
+                self.store_guards.append(guard)
+                self.path.conds.append(guard)
+                try:
+                    self.exec_block(arm, env)
+                finally:
+                    self.path.conds.pop()
+                    self.store_guards.pop()
+            return
         c = self.eval_cond(st.test, env)
         if self.decide(c, st.lineno):
             self.exec_block(st.body, env)
@@ -1166,9 +1206,13 @@ class Evaluator:
                         raise Unsupported("compressed array stored into a full column")
                     self.same_len(base.n, v.n, lineno)
                     f = v.f
-                    base.set_col(c, f)
                 else:
-                    base.set_col(c, lambda j, _v=v: _v)
+                    f = (lambda j, _v=v: _v)
+                if self.store_guards:
+                    g = band(*self.store_guards)
+                    oldf = base.f
+                    f = (lambda j, _n=f, _o=oldf, _g=g, _c=c: ite(_g, _n(j), _o(j, _c)))
+                base.set_col(c, f)
                 return
             if is_scalar(r) and is_scalar(c):
                 if isinstance(env, LoopEnv):
@@ -1189,6 +1233,10 @@ class Evaluator:
         old = a.snapshot().f
 
         def put(newf):
+            if self.store_guards:
+                g = band(*self.store_guards)
+                nf0 = newf
+                newf = (lambda j, _n=nf0, _o=old, _g=g: ite(_g, _n(j), _o(j)))
             if isinstance(a, ColView):
                 a.pit.set_col(a.c, newf)
             else:
@@ -1235,9 +1283,33 @@ class Evaluator:
                 put(lambda j: ite(compare("==", j, idx), v, old(j)))
                 return
             raise Unsupported("symbolic single-element store outside a loop (line %d)" % lineno)
-        if is_array(idx):
-            raise Unsupported("fancy-index store (line %d)" % lineno)
+        if is_array(idx) or type(idx).__name__ == "WhereIdx":
+            return self.fancy_store(a, idx, v, lineno, put, old)
         raise Unsupported("store index %r (line %d)" % (idx, lineno))
+
+    def fancy_store(self, a, idx, v, lineno, put, old):
+        """a[idx] = v with an integer index array.  Positions not hit keep their value; a position
+        j that is hit receives v[k] for a k with idx[k] == j (with unique indices -- assumption A4
+        for the call sites -- that k is unique; with a scalar v the value is v)."""
+        if type(idx).__name__ == "WhereIdx":
+            m = idx.mask.f
+            if is_array(v):
+                raise Unsupported("np.where-indexed store of an array (line %d)" % lineno)
+            put(lambda j: ite(m(j), v, old(j)))
+            return
+        hit = lambda j: member(idx, j)
+        if not is_array(v):
+            put(lambda j: ite(hit(j), v, old(j)))
+            return
+        self.same_len(idx.n, v.n, lineno)
+        # inverse position: an uninterpreted function inv with idx[inv(j)] == j for hit positions
+        inv = z3.Function("inv!%d" % next(V._counter), z3.IntSort(), z3.IntSort())
+        idxf, vf = idx.f, v.f
+        jj = fresh("j")
+        self.path.facts.append(z3.ForAll([jj], z3.Implies(
+            B(hit(jj)), z3.And(inv(jj) >= 0, B(compare("<", inv(jj), idx.n)),
+                               B(compare("==", idxf(inv(jj)), jj))))))
+        put(lambda j: ite(hit(j), vf(inv(V.I(j))), old(j)))
 
     # attributes ----------------------------------------------------------------------------
 
@@ -1469,6 +1541,47 @@ class Evaluator:
         return v
 
 
+def _only_dropped(body):
+    for st in body:
+        if S.is_dropped_stmt(st) or isinstance(st, ast.Pass):
+            continue
+        if isinstance(st, ast.If) and _only_dropped(st.body) and _only_dropped(st.orelse):
+            continue
+        if isinstance(st, ast.For) and _only_dropped(st.body) and _only_dropped(st.orelse):
+            continue
+        return False
+    return True
+
+
+def _only_guardable(body):
+    """statements that are array stores `a[...] = expr` (possibly nested in else-less ifs of the
+    same kind, mixed with dropped statements)"""
+    ok = False
+    for st in body:
+        if S.is_dropped_stmt(st) or isinstance(st, ast.Pass):
+            continue
+        if isinstance(st, ast.Assign) and len(st.targets) == 1 and isinstance(st.targets[0], ast.Subscript) \
+                and not _has_call_effects(st.value):
+            ok = True
+            continue
+        if isinstance(st, ast.If) and _only_guardable(st.body) and \
+                (not st.orelse or _only_guardable(st.orelse)):
+            ok = True
+            continue
+        return False
+    return ok
+
+
+def _has_call_effects(node):
+    for n in ast.walk(node):
+        if isinstance(n, ast.Call):
+            f = n.func
+            nm = f.attr if isinstance(f, ast.Attribute) else (f.id if isinstance(f, ast.Name) else "")
+            if nm not in ("globals", "upper", "lower", "astype", "copy", "abs", "len"):
+                return True
+    return False
+
+
 def _rk(a, b):
     ka, kb = getattr(a, "kind", "f"), getattr(b, "kind", "f")
     if ka == "f" or kb == "f":
@@ -1584,7 +1697,7 @@ class Env:
 BUILTINS = {"len", "range", "max", "min", "abs", "int", "float", "bool", "enumerate", "zip", "list",
             "tuple", "dict", "set", "isinstance", "hasattr", "getattr", "next", "sorted", "sum",
             "any", "all", "str", "round", "iter", "type", "repr", "frozenset", "reversed", "map",
-            "filter", "globals", "callable", "id", "print", "divmod"}
+            "filter", "globals", "callable", "id", "print", "divmod", "object"}
 EXC_NAMES = {"UserWarning", "ValueError", "KeyError", "IndexError", "AttributeError", "TypeError",
              "NotImplementedError", "Exception", "ImportError", "RuntimeError", "AssertionError",
              "ZeroDivisionError", "DeprecationWarning", "FutureWarning", "LookupError",
